@@ -40,6 +40,10 @@ fn main() {
     if args.len() < 2 {
         usage();
     }
+    // die quietly when the reader of our output goes away (`| head`)
+    unsafe {
+        libc::signal(libc::SIGPIPE, libc::SIG_DFL);
+    }
     if let Err(e) = sys::selftest() {
         eprintln!("harness error: {e}");
         std::process::exit(2);
